@@ -161,6 +161,14 @@ func (c *Ctx) scanTypeInv(ti *TypeInv) ([]*Obligation, int) {
 			for _, in := range b.Instrs {
 				switch i := in.(type) {
 				case *ssa.Store:
+					// *p = T{...}: a store of the whole struct writes every field
+					if pt, isPtr := i.Addr.Type().Underlying().(*types.Pointer); isPtr {
+						if _, isSt := pt.Elem().Underlying().(*types.Struct); isSt && namedStructOf(pt.Elem()) == ti.Type {
+							if _, fresh := i.Addr.(*ssa.Alloc); !fresh {
+								bad = append(bad, fmt.Sprintf("%s overwrites a whole %s at %s", name, ti.Type, c.posStr(i.Pos())))
+							}
+						}
+					}
 					if T, f, ok := fieldOfLoad(i.Addr); ok && T == ti.Type && fields[f] {
 						if fa, isAddr := i.Addr.(*ssa.FieldAddr); isAddr {
 							if _, fresh := fa.X.(*ssa.Alloc); fresh && ti.Stable {
